@@ -25,5 +25,6 @@ def replay(case, ctx):
 TECHNIQUE = "stateful property-based testing of the real Consumer + KafkaClient + codec on a simulated stateful cluster (virtual clock, harness-owned schedule) with a scripted processor (sync / async / raising / stopping / committing inside); Hypothesis draws logs, start positions, scheduler choices, faults, stop/shutdown/crash points; oracles quote the partition log, the coordinator's offset store and the request stream; ddmin-shrunk JSON traces"
 RULE = (
     'traces over one Consumer (buffer 64..1 MiB+1, optional maximum, retry delays 0.05..30 s, attempt limit 0..5, reset policy none/earliest/latest, auto-commit every n / every ms, with or without a group) on a 1-2 broker simulated cluster; the log holds plain and gzip-wrapper batches in message format 0 or 1 with compaction gaps, null values and messages larger than the buffer, and is appended to / head-truncated while the consumer runs; steps: start (numeric / earliest / latest / committed), deliver or hold a reply, fire a timer, complete an async processor call (ok / fail), commit, stop, shutdown, crash (drop the consumer object and client, keep the cluster), error codes on fetch / offsets / commit / coordinator lookup, connection drops, broker down/up, leader and coordinator moves. oracle on virtual time: after the k-th consecutive failed offset/fetch request (a chain that starts right after a timely success, gap-free, no request of unknown fate in between) the next request is written min(initial * 1.20205^(k-1), maximum) seconds after the failure reached the client (tolerance 1 ms), and the series restarts at the initial delay after a success (also an empty fetch); with an attempt limit the start() Deferred fails after no more than that many consecutive failures; an out-of-range answer is followed by a ListOffsets for earliest/latest per policy, or fails start() with OffsetOutOfRangeError when none; a message that does not fit the buffer is re-fetched at the same offset with the buffer x16 while <= 1 MiB, else x2, capped at the maximum; at the maximum start() fails with ConsumerFetchSizeTooSmall and the consumer never moves past the message. non-trivial = at least two consecutive failures measured, a capped delay, buffer growth (also across 1 MiB), buffer at maximum, or a reset policy firing; distinct = distinct trace.'
+    " The retry delay is measured at the consumer's next call of the client API (not at the write); the attempt limit is violated when another request follows the limit-th consecutive failure, out-of-range answers included (script 'failoor'); retry_max in {1x, 1.3x, 2x init, 0.5/1, 30}."
 )
 ASSUMPTIONS = ['simkafka models a 0.10-era broker incl. wrappers returned whole, mid-message cuts at max_bytes and long polls (DESIGN.md 2.4)', 'a reply counts as received only if delivered before the client-side deadline of its request; replies to a previous run or incarnation are attributed by correlation id and run', 'connect latency 5 ms, service latency per reply drawn; retry-delay expectations use the constants documented in afkak/consumer.py (factor 1.20205)']
